@@ -251,7 +251,13 @@ def Dim.render : Dim → Option String
   | .sym s => some s
   | .unknown => none
 
-/-- `add(node)`: new shape value of the output (`none`: nothing recorded). -/
+def Dim.isNegInt : Dim → Bool
+  | .known n => decide (n < 0)
+  | _ => false
+
+/-- `add(node)`: new shape value of the output (`none`: nothing recorded).  Since commit 4b0f9eb no
+symbolic sum is built when one operand is a negative int (`N + (-5)` may be negative, and symbolic
+entries are assumed non-negative downstream). -/
 def evalAdd (a b : Option Shape) : Option Shape :=
   match a, b with
   | some [d0], some [d1] =>
@@ -259,7 +265,8 @@ def evalAdd (a b : Option Shape) : Option Shape :=
     | .known x, .known y => some [.known (x + y)]
     | _, _ =>
       match d0.render, d1.render with
-      | some r0, some r1 => some [.sym (r0 ++ "+" ++ r1)]
+      | some r0, some r1 =>
+        if d0.isNegInt || d1.isNegInt then none else some [.sym (r0 ++ "+" ++ r1)]
       | _, _ => none
   | _, _ => none
 
@@ -337,7 +344,9 @@ def materialize (outShape : Option Shape) (shapeIsConst : Bool) : Option (List I
   match outShape with
   | none => none
   | some o =>
-    if (o.filter (fun d => !d.isInt)).length ≤ 1 then
+    -- since commit 49df852: `sym_count == 1 and any(isinstance(d, int) and d == 0 for d in dims)` fails the check
+    if (o.filter (fun d => !d.isInt)).length = 1 && o.any (fun d => decide (d = .known 0)) then none
+    else if (o.filter (fun d => !d.isInt)).length ≤ 1 then
       some (o.map (fun d => match d with | .known n => n | _ => -1))
     else none
 
@@ -464,5 +473,29 @@ def Dim.val (σ : String → Nat) : Dim → Option Int
 
 /-- The concrete list denoted by a shape without unnamed dims. -/
 def denote (σ : String → Nat) (s : Shape) : Option (List Int) := seqOpt (s.map (Dim.val σ))
+
+/-! ## Pre-fix restatements (kept only for the regression refutations in `OV.Props.C09`) -/
+
+/-- `add(node)` as it was before commit 4b0f9eb (finding D5). -/
+def evalAddBefore4b0f9eb (a b : Option Shape) : Option Shape :=
+  match a, b with
+  | some [d0], some [d1] =>
+    match d0, d1 with
+    | .known x, .known y => some [.known (x + y)]
+    | _, _ =>
+      match d0.render, d1.render with
+      | some r0, some r1 => some [.sym (r0 ++ "+" ++ r1)]
+      | _, _ => none
+  | _, _ => none
+
+/-- `MaterializeReshapeShape.check` as it was before commit 49df852 (finding C09-D16c / D16c2). -/
+def materializeBefore49df852 (outShape : Option Shape) (shapeIsConst : Bool) : Option (List Int) :=
+  if shapeIsConst then none else
+  match outShape with
+  | none => none
+  | some o =>
+    if (o.filter (fun d => !d.isInt)).length ≤ 1 then
+      some (o.map (fun d => match d with | .known n => n | _ => -1))
+    else none
 
 end OV.C09
